@@ -176,6 +176,7 @@ class Ctx:
             "fingerprint": self.fingerprint,
             "ops": self.ops_done,
             "bigrams": sorted(self.bigrams),
+            "events": [list(e) for e in self.events] if self.scenario.get("return_events") else None,
         }
 
 
